@@ -116,7 +116,7 @@ def run_one(job):
     p = os.path.join(d, m['file'])
     lines = open(p).read().split('\n')
     assert lines[m['line']] == m['old']
-    lines[m['line']] = m['new']
+    lines[m['line']:m['line'] + m.get('span', 1)] = [m['new']]
     open(p, 'w').write('\n'.join(lines))
     res = {'file': m['file'], 'line': m['line'] + 1, 'kind': m['kind'], 'old': m['old'].strip(), 'new': m['new'].strip()}
     fired = {}
